@@ -6,6 +6,46 @@ import os
 ROOT = os.path.dirname(os.path.dirname(os.path.abspath(__file__)))
 
 CHECKS = {
+    "C15": dict(
+        cat="exploration",
+        text="The real hid.tridonic, hid.hasseb, DriverLubaRs232 and DriverSCIRS232 objects run inside a virtual-time asyncio "
+             "loop against gateway models; 2-4 concurrent callers (single sends, 2-5 command sequences with sleeps and "
+             "progress items, sequences raising at every position, callers cancelled at their k-th task step, hand-made "
+             "transactions) start at picked offsets while gateway queueing/report delays are picked per run (300 runs per "
+             "driver quick, 5000 thorough). An offline checker over the gateway's wire log (frames tagged by caller through "
+             "disjoint addresses and device types) requires every caller's frames to be its expected stream (a prefix when "
+             "cancelled), every unit contiguous, every device-type command immediately preceded by its ENABLE DEVICE TYPE; "
+             "end-state monitors require all callers finished (a virtual-time stall is a violation), transaction_lock free, "
+             "generators closed, exceptions propagated, no error in any callback.",
+        note="Explores the schedules the gateway models allow (reports in bus order, picked delays); real kernel/USB timing "
+             "is not reached. A bare serial send() of a device-type command carries no prefix by design and is only recorded.",
+        tech="runtime monitoring: virtual-time simulation of the real drivers + offline wire-log checker + end-state monitors",
+        ref="DESIGN.md §4 C15"),
+    "C16": dict(
+        cat="exploration",
+        text="send() of the four asyncio drivers runs in the simulation with 1-3 concurrent callers, unique frames per "
+             "send, a bus outcome per frame (silent / value incl. 0 and 255 / framing error) and traffic of another master "
+             "(queries with answers, collisions) at picked instants; DaliServer and the ATX hat driver run on stub socket/"
+             "serial back-ends for every outcome their protocols express. Oracle: None iff the command expects no answer, "
+             "otherwise exactly the command's response class whose raw value is what the bus model produced for that "
+             "caller's own frame. 400 runs per driver quick, 6000 thorough.",
+        note="Gateway models (gateways/sim.py) define what reports a device may send; two known findings about traffic of "
+             "another master during an own serial transaction are listed in known_findings.json and identified by a timing "
+             "monitor (foreign report delivered between the command's write and its completion).",
+        tech="runtime monitoring: virtual-time simulation with unique answer values per frame; per-caller answer matching",
+        ref="DESIGN.md §4 C16"),
+    "C19": dict(
+        cat="exploration",
+        text="data_received() of the real LubaProtocol / SCIRS232Protocol objects is fed grammar-guided and random byte "
+             "streams (valid frames of every type, every value 0..255 in the length byte, corrupted checksums, truncated "
+             "frames, noise with start bytes) under 4 (thorough 8) chunkings each; the contents of the raw-answer, "
+             "confirmation, observed-command and info queues are compared with an independent functional deframer over the "
+             "whole stream; no exception may escape, a probe frame after the stream must be delivered, and the result must "
+             "not depend on chunking. 5k streams quick, 200k thorough.",
+        note="Reference deframers in spec/wire_formats.py; streams with checksum-valid frames whose payload is malformed for "
+             "their type are set aside and counted.",
+        tech="runtime monitoring: reference deframer oracle, chunking-invariance check, probe-frame liveness check",
+        ref="DESIGN.md §4 C19"),
     "C09": dict(
         cat="exploration",
         text="MemoryValue.read of all 97 declared values and MemoryBank.read_all of the 9 banks run against a specification "
